@@ -29,6 +29,8 @@ import (
 	"verif/engine/ev"
 )
 
+func isLarge(o op) bool { return strings.Contains(o.name, "(large binary)") }
+
 // RaceMain runs inside the -race binary: args = [iterations].
 func RaceMain(args []string) int {
 	iters := 50
@@ -66,6 +68,9 @@ func RaceMain(args []string) int {
 				if ii >= len(fa) {
 					j, k = (i+5)%len(fb), (i+9)%len(fc)
 				}
+				if it%10 != 0 && (isLarge(fa[i]) || isLarge(fb[j]) || isLarge(fc[k])) {
+					continue // megabyte-sized values: every tenth round
+				}
 				var wg sync.WaitGroup
 				var r1, r2, r3 string
 				wg.Add(3)
@@ -83,6 +88,9 @@ func RaceMain(args []string) int {
 		for i := range a {
 			for j := i; j < len(b); j++ {
 				k := (i + j + it) % len(c)
+				if it%10 != 0 && (isLarge(a[i]) || isLarge(b[j]) || isLarge(c[k])) {
+					continue
+				}
 				var wg sync.WaitGroup
 				var r1, r2, r3 string
 				wg.Add(3)
